@@ -192,8 +192,9 @@ class Parser:
                     left = args[0]
                     for a in args[1:]:
                         left = ("concat", left, a)
-                elif fn == "floor" and len(args) == 1 and args[0][0] == "idiv":
-                    left = args[0]
+                elif fn == "floor" and len(args) == 1:
+                    # FLOOR(x / y) is how "//" is spelled where "/" is not integer division
+                    left = args[0] if args[0][0] == "idiv" else ("floor", args[0])
                 else:
                     raise Unparsed("unknown function %s/%d" % (fn, len(args)))
                 self.paren.add(id(left))
